@@ -339,7 +339,7 @@ func Solve(file string, opts SolverOpts, cover bool) (result, solver, output str
 	start := time.Now()
 	if cover {
 		// vacuity guard: only a definite 'unsat' matters; one solver, short budget
-		r, out := runSolver(context.Background(), solvers[0], file, 1, opts.Seed)
+		r, out := runSolver(context.Background(), solvers[0], file, opts.TimeoutS, opts.Seed)
 		return r, solvers[0].name, out, time.Since(start).Milliseconds(), nil
 	}
 	race := func(files []string, full int, timeout int) (string, string, string) {
